@@ -129,6 +129,15 @@ Proof.
   rewrite Hpd. destruct (N.ltb_spec n LIM); [reflexivity|lia].
 Qed.
 
+Lemma atoi_dec n : n < LIM -> atoi_digits (dec n) = Some (Z.of_N n).
+Proof.
+  intros Hn. unfold atoi_digits.
+  assert (Hp : parse_digits 10 0 (dec n) = Some n).
+  { unfold dec. apply parse_ren_fuel; try lia; unfold LIM in *; lia. }
+  destruct (dec_head n) as (c & t & E & _). rewrite Hp, E.
+  destruct (N.ltb_spec n (2 * LIM)); [reflexivity|unfold LIM in *; lia].
+Qed.
+
 Theorem parse_int_dec n : n < LIM -> parse_int 10 (dec n) = Some (Z.of_N n).
 Proof.
   intros Hn. apply parse_int_ren; try lia.
